@@ -138,7 +138,8 @@ var profC02 = profile{
 	must: []string{"auth"}, may: []string{"lock", "logout", "otp", "recover", "remember", "confirm"},
 	setups: []string{"totp", "sms", "recovery"}, kinds: kindsC02, minOps: 14, maxOps: 32,
 	accts: [2]int{3, 4}, browsers: [2]int{1, 2}, middlewares: []string{"", "", "remember"},
-	faultPct: 6, // both C02 rules are safety rules: they hold whichever backend call fails
+	faultPct:  6, // both C02 rules are safety rules: they hold whichever backend call fails
+	cancelPct: 5,
 	tweak: func(t *rapid.T, c *harness.Config) {
 		if !c.HasSetup("totp") && !c.HasSetup("sms") {
 			c.Setups = append(c.Setups, pick(t, "force2fa", "totp", "sms"))
